@@ -1,3 +1,243 @@
-/- C09 — property theorems only (helper lemmas live in `Rooc/Proofs`). -/
+/-
+C09 — Expressions parse with the documented precedence and associativity.
+PROPERTY THEOREMS ONLY (helper lemmas live in `Rooc/Proofs`).
+
+Vocabulary: `parseToks : List Tok → Except PErr PExp` is the executable model of the PEG rules reachable
+from `exp` + pest's Pratt loop over the REGENERATED operator table (`Rooc/Syntax/Parse.lean`, diffed
+against the real parser on every run); `Doc.*` is the documented table (`Rooc/Syntax/Doc.lean`);
+`Tk t ts items` is the rendering relation "the token list `ts` writes down the tree `t`" with any operator
+spelling, any SUPERSET of the needed parentheses, implicit products and calls (`Rooc/Proofs/Group.lean`);
+`render alias t` is the minimal-parenthesis printer built from the documented rules only.
+-/
+import Lean
+import Rooc.Proofs.Render
+import Rooc.Proofs.LexSpell
 namespace Rooc.Props.C09
+open Rooc Rooc.Syntax Rooc.Syntax.Doc Rooc.Syntax.Proofs
+
+def allBinOps : List BinOp := [.add, .sub, .mul, .div, .and, .or, .xor, .implies, .iff]
+
+/-- The REGENERATED Pratt table is the documented one: binding power `10 + 10·level`, `implies`
+right-associative, every other operator left-associative (so `implies` and `iff` share the lowest level
+and keep their own associativity), both prefix operators above every infix, and every rule is mapped
+to its own operator by `map_infix` / `map_prefix`. -/
+theorem table_documented :
+    (∀ o ∈ allBinOps, getOp (docRule o) = some (if docRightAssoc o then .inR else .inL, 10 + 10 * docLevel o)
+        ∧ infixArm (docRule o) = some o)
+    ∧ (∀ u ∈ [UnOp.neg, UnOp.not], getOp (docUnRule u) = some (.pre, 80) ∧ prefixArm (docUnRule u) = some u) := by
+  decide
+
+/-- **General round trip** (`printer_roundtrip`): ANY way of writing a tree down — any spelling of the
+operators (keywords or `&& || ! -> <->`), any superset of the needed parentheses, implicit products,
+calls — is read back as that tree. -/
+theorem printer_roundtrip {t : PExp} {ts : List Tok} {items : List Item} (h : Tk t ts items) :
+    parseToks ts = .ok t := parse_tk h
+
+/-- **`parse (render t) = t`** for every tree of the sub-language, with the minimal-parenthesis printer
+defined from the documented rules only, in both spellings. -/
+theorem parse_print (alias : Bool) (t : PExp) (h : WF t) : parseToks (render alias t) = .ok t := by
+  obtain ⟨items, hk, _⟩ := render_tk alias t h
+  exact parse_tk hk
+
+example : WF (.bin .sub (.var "x") (.bin .sub (.un .neg (.var "y")) (.bin .mul (.int 2) (.call "f" [.var "z", .num "2.5"])))) := by
+  simp [WF, WF.WFs]; decide
+
+/-- the symbolic aliases mean the same as the keywords -/
+theorem alias_eq (t : PExp) (h : WF t) : parseToks (render true t) = parseToks (render false t) := by
+  rw [parse_print true t h, parse_print false t h]
+
+/-- Two binary operators in a row group by the DOCUMENTED levels, for every pair of operators and every
+spelling: `a o1 b o2 c` is `(a o1 b) o2 c` when `o1` is on a tighter level, or on the same level and left
+associative; otherwise it is `a o1 (b o2 c)`. -/
+theorem operator_pair (o1 o2 : BinOp) (al1 al2 : Bool) {a b c : PExp} {ta tb tc : Tok}
+    (ha : Atom a ta) (hb : Atom b tb) (hc : Atom c tc) :
+    parseToks [ta, binTokS al1 o1, tb, binTokS al2 o2, tc] =
+      .ok (if docLevel o1 > docLevel o2 ∨ (docLevel o1 = docLevel o2 ∧ docRightAssoc o1 = false)
+           then .bin o2 (.bin o1 a b) c else .bin o1 a (.bin o2 b c)) := by
+  by_cases hg : docLevel o1 > docLevel o2 ∨ (docLevel o1 = docLevel o2 ∧ docRightAssoc o1 = false)
+  · simp only [hg, if_true]
+    have hnp : needParenLeft o2 (.bin o1 a b) = false := by
+      simp only [needParenLeft]; revert hg; cases o1 <;> cases o2 <;> decide
+    exact parse_tk (Tk.bin (Tk.bin (Tk.atom ha) (Tk.atom hb) (Or.inl rfl) (Or.inl rfl) (binTokS_mem al1 o1))
+      (Tk.atom hc) (Or.inr hnp) (Or.inl rfl) (binTokS_mem al2 o2))
+  · simp only [hg, if_false]
+    have hnp : needParenRight o1 (.bin o2 b c) = false := by
+      simp only [needParenRight]; revert hg; cases o1 <;> cases o2 <;> decide
+    exact parse_tk (Tk.bin (Tk.atom ha)
+      (Tk.bin (Tk.atom hb) (Tk.atom hc) (Or.inl rfl) (Or.inl rfl) (binTokS_mem al2 o2))
+      (Or.inl rfl) (Or.inr hnp) (binTokS_mem al1 o1))
+
+/-- `a -> b <-> c` is `a -> (b <-> c)` -/
+theorem implies_then_iff {a b c : PExp} {ta tb tc : Tok} (ha : Atom a ta) (hb : Atom b tb) (hc : Atom c tc) :
+    parseToks [ta, .arrow, tb, .darrow, tc] = .ok (.bin .implies a (.bin .iff b c)) := by
+  simpa [binTokS, docLevel, docRightAssoc] using operator_pair .implies .iff true true ha hb hc
+
+/-- `a <-> b -> c` is `(a <-> b) -> c` -/
+theorem iff_then_implies {a b c : PExp} {ta tb tc : Tok} (ha : Atom a ta) (hb : Atom b tb) (hc : Atom c tc) :
+    parseToks [ta, .darrow, tb, .arrow, tc] = .ok (.bin .implies (.bin .iff a b) c) := by
+  simpa [binTokS, docLevel, docRightAssoc] using operator_pair .iff .implies true true ha hb hc
+
+/-- `a -> b -> c` is `a -> (b -> c)`, `a - b - c` is `(a - b) - c` -/
+theorem implies_right_assoc {a b c : PExp} {ta tb tc : Tok} (ha : Atom a ta) (hb : Atom b tb) (hc : Atom c tc) :
+    parseToks [ta, .word "implies", tb, .word "implies", tc] = .ok (.bin .implies a (.bin .implies b c)) := by
+  simpa [binTokS, docLevel, docRightAssoc] using operator_pair .implies .implies false false ha hb hc
+theorem sub_left_assoc {a b c : PExp} {ta tb tc : Tok} (ha : Atom a ta) (hb : Atom b tb) (hc : Atom c tc) :
+    parseToks [ta, .minus, tb, .minus, tc] = .ok (.bin .sub (.bin .sub a b) c) := by
+  simpa [binTokS, docLevel, docRightAssoc] using operator_pair .sub .sub false false ha hb hc
+
+/-- a prefix operator binds tighter than every binary operator: `-a o b` is `(-a) o b`, `not a o b` is
+`(not a) o b` -/
+theorem unary_binds_tightest (u : UnOp) (o : BinOp) (alu alo : Bool) {a b : PExp} {ta tb : Tok}
+    (ha : Atom a ta) (hb : Atom b tb) :
+    parseToks [unTokS alu u, ta, binTokS alo o, tb] = .ok (.bin o (.un u a) b) :=
+  parse_tk (Tk.bin (Tk.un (Tk.atom ha) (unTokS_mem alu u)) (Tk.atom hb) (Or.inr rfl) (Or.inl rfl) (binTokS_mem alo o))
+
+/-- … also on the right of an operator: `a o -b` is `a o (-b)` -/
+theorem unary_right_operand (u : UnOp) (o : BinOp) (alu alo : Bool) {a b : PExp} {ta tb : Tok}
+    (ha : Atom a ta) (hb : Atom b tb) :
+    parseToks [ta, binTokS alo o, unTokS alu u, tb] = .ok (.bin o a (.un u b)) :=
+  parse_tk (Tk.bin (Tk.atom ha) (Tk.un (Tk.atom hb) (unTokS_mem alu u)) (Or.inl rfl) (Or.inr rfl) (binTokS_mem alo o))
+
+/-- **An implicit product is a single factor**: numbers / parenthesised groups written next to each
+other, optionally closed by a variable (`2x`, `2(x+1)`, `(a)(b)c`), are ONE operand of whatever operator
+stands before them — `a / 2x` is `a / (2*x)` — and of a prefix operator: `-2x` is `-(2*x)`. -/
+theorem implicit_product_single_factor (o : BinOp) (al : Bool) {a p : PExp} {ta : Tok} {ps vs : List PExp}
+    {ts vts : List Tok} (ha : Atom a ta) (hj : Juxt (p :: ps) ts) (hv : VarTail vs vts) (hn : 1 ≤ (ps ++ vs).length) :
+    parseToks (ta :: binTokS al o :: (ts ++ vts)) = .ok (.bin o a (mulAll p (ps ++ vs))) := by
+  have := parse_tk (Tk.bin (Tk.atom ha) (Tk.imul hj hv hn) (Or.inl rfl) (Or.inl rfl) (binTokS_mem al o))
+  simpa using this
+
+theorem implicit_product_under_prefix (u : UnOp) (al : Bool) {p : PExp} {ps vs : List PExp}
+    {ts vts : List Tok} (hj : Juxt (p :: ps) ts) (hv : VarTail vs vts) (hn : 1 ≤ (ps ++ vs).length) :
+    parseToks (unTokS al u :: (ts ++ vts)) = .ok (.un u (mulAll p (ps ++ vs))) :=
+  parse_tk (Tk.un (Tk.imul hj hv hn) (unTokS_mem al u))
+
+/-- `a / 2x = a / (2*x)` -/
+example : parseToks [.word "a", .slash, .int "2", .word "x"] = .ok (.bin .div (.var "a") (.bin .mul (.int 2) (.var "x"))) := by
+  have h2 : digitsToNat "2".toList ≤ i64Max := by decide
+  have := implicit_product_single_factor .div false (Atom.var "a" (by decide) (by decide))
+    (Juxt.int h2 Juxt.nil) (VarTail.var "x" (by decide)) (by simp)
+  simpa [binTokS, mulAll, digitsToNat] using this
+
+/-- `a / 2(x+1) = a / (2*(x+1))` and `a / (b)(c)d = a / ((b*c)*d)` -/
+example : parseToks [.word "a", .slash, .int "2", .lpar, .word "x", .plus, .int "1", .rpar] =
+    .ok (.bin .div (.var "a") (.bin .mul (.int 2) (.bin .add (.var "x") (.int 1)))) := by
+  have h2 : digitsToNat "2".toList ≤ i64Max := by decide
+  have h1 : digitsToNat "1".toList ≤ i64Max := by decide
+  have hx : Tk (.bin .add (.var "x") (.int (digitsToNat "1".toList))) ([.word "x"] ++ .plus :: [.int "1"]) _ :=
+    Tk.bin (Tk.atom (Atom.var "x" (by decide) (by decide))) (Tk.atom (Atom.int "1" h1)) (Or.inl rfl) (Or.inl rfl)
+      (by simp [binToks] : Tok.plus ∈ binToks .add)
+  have := implicit_product_single_factor .div false (Atom.var "a" (by decide) (by decide))
+    (Juxt.int h2 (Juxt.paren hx Juxt.nil)) VarTail.none (by simp)
+  simpa [binTokS, mulAll, digitsToNat] using this
+
+/-- Identifiers that merely start with a keyword stay identifiers — proved for every word that is not
+itself a keyword and does not start with `true`/`false` … -/
+theorem keyword_prefix_ident_partial (n : String) (hk : isKeyword n = false) (hb : boolPrefix n = none) :
+    parseToks [.word n] = .ok (.var n) :=
+  parse_tk (Tk.atom (Atom.var n hk hb))
+
+example : isKeyword "android" = false ∧ boolPrefix "android" = none := by decide
+example : ∀ n ∈ ["android", "order", "nothing", "iffy", "xor1", "implies2", "mins", "format", "inx", "ast", "lets", "And", "$and", "_or"],
+    isKeyword n = false ∧ boolPrefix n = none := by decide
+
+/-- … and FALSE for `true`/`false`: `truex` is not a keyword, yet it is not read as an identifier (the
+`boolean` rule has no boundary look-ahead and is tried before `variable`). -/
+theorem keyword_prefix_ident_counterexample :
+    isKeyword "truex" = false ∧ parseToks [.word "truex"] = .error .reject := by
+  refine ⟨by decide, ?_⟩
+  have hb : boolPrefix "truex" = some ("true", "x") := by decide
+  simp [parseToks, parseFuel, parseExp, collect, optUnary, unRule_word (w := "truex") (by decide), leaf, wordLeaf, hb,
+    collectLoop, binRule, ruleOfTok, Tok.opSpelling, Gen.binaryOpAlts, spells, Gen.opSpellings, prattParse,
+    expr, nud, loop, lbp]
+
+/-! ### from tokens to text -/
+
+/-- **Lexer round trip**: a token sequence written with single spaces (`spell`) is cut back into itself. -/
+theorem lexer_roundtrip (ts : List Tok) (h : ∀ t ∈ ts, TokOK t) : lex (spell ts) = .ok ts := lex_spell ts h
+
+/-- **`parseText (text of (render t)) = t`**: the minimal-parenthesis rendering of every tree with plain
+names, written as text, is read back as that tree (lexer + PEG fragment + Pratt loop). -/
+theorem parse_print_text (alias : Bool) (t : PExp) (h : WF t) (ht : TextOK t) :
+    parseText (spell (render alias t)) = .ok t := by
+  simp only [parseText, lex_spell _ (render_tokOK alias t ht), parse_print alias t h]
+
+example : TextOK (.bin .sub (.var "x") (.bin .sub (.un .neg (.var "y")) (.bin .mul (.int 2) (.call "f" [.var "z", .num "2.5"])))) := by
+  have hx : plainWord "x".toList = true := by decide
+  have hy : plainWord "y".toList = true := by decide
+  have hz : plainWord "z".toList = true := by decide
+  have hf : plainWord "f".toList = true := by decide
+  have hnum : FloatParts "2.5" := ⟨['2'], ['5'], by decide, by decide, by decide, by decide, by decide⟩
+  exact ⟨hx, hy, trivial, hf, by decide, hz, hnum, trivial⟩
+
+/-! ### the laws named in the property text, on the TEXTS themselves (`parseText` = lexer + `parseToks`) -/
+
+private theorem vA : Atom (.var "a") (.word "a") := Atom.var "a" (by decide) (by decide)
+private theorem vB : Atom (.var "b") (.word "b") := Atom.var "b" (by decide) (by decide)
+private theorem vC : Atom (.var "c") (.word "c") := Atom.var "c" (by decide) (by decide)
+private theorem vX : Atom (.var "x") (.word "x") := Atom.var "x" (by decide) (by decide)
+private theorem i1 : Atom (.int 1) (.int "1") := Atom.int "1" (by decide)
+private theorem i2 : Atom (.int 2) (.int "2") := Atom.int "2" (by decide)
+
+theorem text_of_toks {s : String} {ts : List Tok} {t : PExp} (hl : lex s.toList = .ok ts) (hp : parseToks ts = .ok t) :
+    parseText s.toList = .ok t := by
+  simp [parseText, hl, hp]
+
+/-- `a -> b <-> c` is `a -> (b <-> c)` -/
+theorem text_implies_iff :
+    parseText "a -> b <-> c".toList = .ok (.bin .implies (.var "a") (.bin .iff (.var "b") (.var "c"))) :=
+  text_of_toks (by decide) (implies_then_iff vA vB vC)
+
+/-- `a <-> b -> c` is `(a <-> b) -> c` -/
+theorem text_iff_implies :
+    parseText "a <-> b -> c".toList = .ok (.bin .implies (.bin .iff (.var "a") (.var "b")) (.var "c")) :=
+  text_of_toks (by decide) (iff_then_implies vA vB vC)
+
+/-- the keyword spelling reads the same: `a implies b iff c` -/
+theorem text_implies_iff_keywords :
+    parseText "a implies b iff c".toList = parseText "a -> b <-> c".toList := by
+  rw [text_implies_iff]
+  exact text_of_toks (ts := [.word "a", .word "implies", .word "b", .word "iff", .word "c"]) (by decide)
+    (by simpa [binTokS, docLevel, docRightAssoc] using operator_pair .implies .iff false false vA vB vC)
+
+/-- `-a * b` is `(-a) * b` and `not a and b` is `(not a) and b` -/
+theorem text_unary_tighter :
+    parseText "-a * b".toList = .ok (.bin .mul (.un .neg (.var "a")) (.var "b"))
+    ∧ parseText "not a and b".toList = .ok (.bin .and (.un .not (.var "a")) (.var "b"))
+    ∧ parseText "!a && b".toList = .ok (.bin .and (.un .not (.var "a")) (.var "b")) :=
+  ⟨text_of_toks (ts := [.minus, .word "a", .star, .word "b"]) (by decide)
+     (by simpa [binTokS, unTokS] using unary_binds_tightest .neg .mul false false vA vB),
+   text_of_toks (ts := [.word "not", .word "a", .word "and", .word "b"]) (by decide)
+     (by simpa [binTokS, unTokS] using unary_binds_tightest .not .and false false vA vB),
+   text_of_toks (ts := [.bang, .word "a", .ampamp, .word "b"]) (by decide)
+     (by simpa [binTokS, unTokS] using unary_binds_tightest .not .and true true vA vB)⟩
+
+/-- `2x`, `2(x+1)` and `(a)(b)c` are single factors: `a / 2x = a / (2*x)`, `a / 2(x+1) = a / (2*(x+1))`,
+`a / (a)(b)c = a / ((a*b)*c)` -/
+theorem text_implicit_products :
+    parseText "a / 2x".toList = .ok (.bin .div (.var "a") (.bin .mul (.int 2) (.var "x")))
+    ∧ parseText "a / 2(x+1)".toList = .ok (.bin .div (.var "a") (.bin .mul (.int 2) (.bin .add (.var "x") (.int 1))))
+    ∧ parseText "a / (a)(b)c".toList = .ok (.bin .div (.var "a") (.bin .mul (.bin .mul (.var "a") (.var "b")) (.var "c"))) := by
+  have h2 : digitsToNat "2".toList ≤ i64Max := by decide
+  refine ⟨text_of_toks (ts := [.word "a", .slash, .int "2", .word "x"]) (by decide) ?_,
+    text_of_toks (ts := [.word "a", .slash, .int "2", .lpar, .word "x", .plus, .int "1", .rpar]) (by decide) ?_,
+    text_of_toks (ts := [.word "a", .slash, .lpar, .word "a", .rpar, .lpar, .word "b", .rpar, .word "c"]) (by decide) ?_⟩
+  · have := implicit_product_single_factor .div false vA (Juxt.int h2 Juxt.nil) (VarTail.var "x" (by decide)) (by simp)
+    simpa [binTokS, mulAll, digitsToNat] using this
+  · have hx : Tk (.bin .add (.var "x") (.int 1)) ([.word "x"] ++ .plus :: [.int "1"]) _ :=
+      Tk.bin (Tk.atom vX) (Tk.atom i1) (Or.inl rfl) (Or.inl rfl) (by simp [binToks] : Tok.plus ∈ binToks .add)
+    have := implicit_product_single_factor .div false vA (Juxt.int h2 (Juxt.paren hx Juxt.nil)) VarTail.none (by simp)
+    simpa [binTokS, mulAll, digitsToNat] using this
+  · have := implicit_product_single_factor .div false vA
+      (Juxt.paren (Tk.atom vA) (Juxt.paren (Tk.atom vB) Juxt.nil)) (VarTail.var "c" (by decide)) (by simp)
+    simpa [binTokS, mulAll] using this
+
+/-- identifiers that merely start with a keyword: `android + nothing` are two variables … -/
+theorem text_keyword_prefixed :
+    parseText "android + nothing".toList = .ok (.bin .add (.var "android") (.var "nothing")) :=
+  text_of_toks (ts := [.word "android", .plus, .word "nothing"]) (by decide)
+    (by simpa [binTokS, docLevel] using
+      parse_tk (Tk.bin (Tk.atom (Atom.var "android" (by decide) (by decide))) (Tk.atom (Atom.var "nothing" (by decide) (by decide)))
+        (Or.inl rfl) (Or.inl rfl) (by simp [binToks] : Tok.plus ∈ binToks .add)))
+
 end Rooc.Props.C09
